@@ -317,8 +317,9 @@ class Ctx:
             "property_id": self.prop, "tier": self.tier, "seed": int(self.seed), "level": level, "coverage": cov,
             "assumptions": self.assumptions, "wall_s": round(time.time() - self.t0, 2), "violations": len(self.violations),
         }
-        os.makedirs(os.path.join(VERIF, "evidence"), exist_ok=True)
-        with open(os.path.join(VERIF, "evidence", f"{self.prop}.json"), "w") as f:
+        evdir = os.environ.get("VERIF_EVIDENCE_DIR") or os.path.join(VERIF, "evidence")  # the override is for mutation trials only
+        os.makedirs(evdir, exist_ok=True)
+        with open(os.path.join(evdir, f"{self.prop}.json"), "w") as f:
             json.dump(ev, f, indent=1, default=str)
         for m in self.known_hits:
             print(m)
@@ -364,7 +365,9 @@ def in_section(txt: str, pos: int) -> bool:
 
 
 def parse_assumptions(out: str):
-    """Split coqc stdout into one list of axioms per Print Assumptions."""
+    """Split coqc stdout into one list of axioms per Print Assumptions.  Inside an `Axioms:` block every line that starts
+    in column 0 with an identifier names an axiom (its type follows after ` : ` or, for long types, on indented
+    continuation lines); any other column-0 line ends the block."""
     blocks, cur = [], None
     for line in out.split("\n"):
         if line.startswith("Closed under the global context"):
@@ -377,12 +380,14 @@ def parse_assumptions(out: str):
                 blocks.append(cur)
             cur = []
         elif cur is not None:
-            m = re.match(r"^([A-Za-z_][\w.']*)\s*:", line)
+            if line.strip() == "" or line[0] in " \t":
+                continue
+            m = re.match(r"^([A-Za-z_][\w.']*)\s*(:|$)", line)
             if m:
                 cur.append(m.group(1))
-            elif line.strip() == "" or not line.startswith(" "):
-                if line.strip() == "":
-                    continue
+            else:  # some other vernacular output: the block is over
+                blocks.append(cur)
+                cur = None
     if cur is not None:
         blocks.append(cur)
     return blocks
